@@ -13,6 +13,7 @@ func (rt *runtime) cmplEvaluateNodeStatement(node nodeStatement) Value {
 	// we avoid runtime.Gosched() overhead (if any)
 	// FIXME: Test this
 	if rt.otto.Interrupt != nil {
+		rt.verifStep(1)
 		goruntime.Gosched()
 		select {
 		case value := <-rt.otto.Interrupt:
@@ -257,6 +258,7 @@ resultBreak:
 
 		// this is to prevent for cycles with no body from running forever
 		if len(body) == 0 && rt.otto.Interrupt != nil {
+			rt.verifStep(3)
 			goruntime.Gosched()
 			select {
 			case value := <-rt.otto.Interrupt:
